@@ -28,7 +28,8 @@ RULE = ("edges x family x parameters x bin_evaluation x density flag, read throu
         "non-trivial = non-uniform bins, or a polynomial of degree >= 2 (quadrature error non-zero and checked in closed form), or a "
         "re-read after a parameter change / rebin / data replacement; distinct by case hash")
 ASSUMPTIONS = [
-    "edges strictly ascending with widths >= 1e-3 and |x| <= 10; parameters O(1) (conditioning of F(b)-F(a) stays benign)",
+    "edges strictly ascending with widths >= 1e-3 and |x| <= 10, times a unit factor in {1, 1e-3, 1e-7, 1e2} that is applied consistently to edges and parameters; parameters O(1) in that unit "
+    "(conditioning of F(b)-F(a) stays benign)",
     "'numerical' (scipy.integrate.quad) is judged at 1e-7 relative + 1e-9 absolute of sum|integrand| scale",
     "N (number of entries for density=True) is counted by the harness as the number of values filled into the data container, "
     "including those landing in underflow / overflow",
@@ -126,6 +127,10 @@ def strategy(tier):
             "method": st.sampled_from(METHODS), "density": st.booleans(),
             "via": st.sampled_from(["model", "model", "fit"]),
             "passing": st.sampled_from(["fresh", "fresh", "same_list", "same_array"]),
+            # unit of the x axis: edges and the length-like parameters are multiplied by it, polynomial coefficients divided by its powers (same function values)
+            "x_scale": st.sampled_from([1.0, 1.0, 1.0, 1e-3, 1e-7, 1e2]),
+            # how the data container of a HistFit gets its contents: filled, or bin heights set by hand after n_entries had been read
+            "container": st.sampled_from(["fill", "fill", "set_bins"]),
             "n_fill": st.integers(1, 40), "n_out": st.integers(0, 5),
             "then": st.lists(st.sampled_from(["set_params", "rebin", "replace_data_same_shape", "replace_data"]), max_size=3),
         })
@@ -166,7 +171,7 @@ def expected_and_tol(fam, p, edges, method):
         if m in ("antider", "antider_vec"):
             return I, rnd, "exact"
         if m == "numerical":
-            return I, 1e-9 * scale + 1e-12, "quad"
+            return I, 1e-9 * scale + 1e-12 + (1.5e-8 if np.max(np.abs(I)) < 1e-3 else 0.0), "quad"  # quad stops at max(1.49e-8 absolute, 1.49e-8 relative)
         d1 = _poly_deriv(c, 1)
         d3 = _poly_deriv(c, 3)
         e2 = h ** 2 * (_polyval(d1, b) - _polyval(d1, a))
@@ -201,7 +206,7 @@ def expected_and_tol(fam, p, edges, method):
     if m in ("antider", "antider_vec"):
         return I, rnd, "exact"
     if m == "numerical":
-        return I, 1e-7 * scale, "quad"
+        return I, 1e-7 * scale, "quad"  # scale >= 1e-3: covers quad's absolute 1.49e-8
     if m == "simpson":
         return I, h ** 5 / 2880.0 * M4 * (1 + 1e-9) + rnd, "bound"
     if m == "trapezoid":
@@ -244,19 +249,36 @@ def _check_width(fam, p, edges, method, labels):
         raise Discard("exponential overflows at the lower edge")
 
 
+def _rescale(fam, p, xs):
+    if fam.startswith("poly"):
+        return [c / xs ** k for k, c in enumerate(p)]
+    if fam == "expo":
+        return [p[0] * xs]
+    return [p[0] * xs, p[1] * xs] + list(p[2:])
+
+
 def run(case):
+    xu = float(case.get("x_scale", 1.0))
+    if xu != 1.0:
+        case = dict(case, x_scale=1.0, edges=[e * xu for e in case["edges"]], edges2=[e * xu for e in case["edges2"]],
+                    params=_rescale(case["family"], [float(v) for v in case["params"]], xu), params2=_rescale(case["family"], [float(v) for v in case["params2"]], xu), _xs=xu)
+    xu = float(case.get("_xs", 1.0))
+    if xu != 1.0:
+        labels_pre = {f"x_unit={xu:g}"}
+    else:
+        labels_pre = set()
     fam = case["family"]
     f, F = FAMILIES[fam]
     p = [float(v) for v in case["params"]]
     edges = [float(x) for x in case["edges"]]
-    if min(np.diff(edges)) < 1e-3:
+    if min(np.diff(edges)) < 1e-3 * xu:
         raise Discard("narrow bin")
     method = case["method"]
     passing = case.get("passing", "fresh")
     buf = None
     dens = bool(case["density"])
-    labels = set()
-    if len(set(np.round(np.diff(edges), 12))) > 1:
+    labels = set(labels_pre)
+    if len(set(np.round(np.diff(edges) / xu, 12))) > 1:
         labels.add("non_uniform")
     if fam.startswith("poly") and int(fam[4:]) >= 2:
         labels.add("poly_deg>=2")
@@ -292,7 +314,7 @@ def run(case):
                 labels.add("reread_after_parameter_change")
             elif step == "rebin":
                 edges = [float(x) for x in case["edges2"]]
-                if min(np.diff(edges)) < 1e-3:
+                if min(np.diff(edges)) < 1e-3 * xu:
                     break
                 _check_width(fam, p, edges, method, labels)
                 with guard("rebin"):
@@ -310,7 +332,18 @@ def run(case):
         def container(ed):
             # deterministic entries: evenly spread inside the range, plus some outside (under/overflow count towards n_entries)
             inside = list(np.linspace(ed[0], ed[-1], n_in + 2)[1:-1])
-            outside = [ed[0] - 1.0 - i for i in range(n_out // 2)] + [ed[-1] + 1.0 + i for i in range(n_out - n_out // 2)]
+            w_ = ed[-1] - ed[0]
+            outside = [ed[0] - w_ * (1.0 + i) for i in range(n_out // 2)] + [ed[-1] + w_ * (1.0 + i) for i in range(n_out - n_out // 2)]
+            if case.get("container") == "set_bins":
+                # heights set by hand on a container whose (then different) number of entries had already been asked for
+                hc_ = kafe2.HistContainer(n_bins=len(ed) - 1, bin_range=(ed[0], ed[-1]), bin_edges=list(ed), fill_data=inside[:3])
+                _ = hc_.n_entries
+                heights = [int(1 + (i * 7 + n_in) % 5) for i in range(len(ed) - 1)]
+                uf, of = int(n_out // 2), int(n_out - n_out // 2)
+                with guard("set_bins"):
+                    hc_.set_bins(heights, underflow=uf, overflow=of)
+                labels.add("container_set_bins_after_n_entries_read")
+                return hc_, int(sum(heights) + uf + of)
             return kafe2.HistContainer(n_bins=len(ed) - 1, bin_range=(ed[0], ed[-1]), bin_edges=list(ed), fill_data=inside + outside), len(inside) + len(outside)
 
         hc, N = container(edges)
@@ -347,7 +380,7 @@ def run(case):
                     edges = [old[0]] + list(new_inner) + [old[-1]]
                 else:
                     edges = [float(x) for x in case["edges2"]]
-                if min(np.diff(edges)) < 1e-3:
+                if min(np.diff(edges)) < 1e-3 * xu:
                     break
                 _check_width(fam, p, edges, method, labels)
                 hc, N = container(edges)
